@@ -545,8 +545,9 @@ func runExporterRow(k *vf.Case, r xrow) {
 			if r.opt == 'v' {
 				a.headers = map[string]string{"src": "option", "only-opt": "1"}
 			}
-			valSpec = vf.Pick(k.R, []string{"src=specific,only-spec=1", " src = specific ,only-spec=1", "only-spec=1,src=sp%65cific"})
-			valGen = vf.Pick(k.R, []string{"src=generic,only-gen=1", "only-gen=1, src=generic", "src=gen%65ric,only-gen=1"})
+			// spellings of a valid list: OWS, order, percent escapes, and values that themselves contain '=' (base64 padding)
+			valSpec = []string{"src=specific,only-spec=1", " src = specific ,only-spec=1", "only-spec=1,src=sp%65cific", "auth=Basic%20dXNlcjpwYXNz==,src=specific,only-spec=1"}[(k.Index+int(k.C.Seed))%4]
+			valGen = []string{"src=generic,only-gen=1", "only-gen=1, src=generic", "src=gen%65ric,only-gen=1", "src=generic,only-gen=1,tok=a=b"}[(k.Index/4+int(k.C.Seed))%4]
 			if r.spec == 'i' {
 				valSpec = invalidHeaders[r.invalidVariant%len(invalidHeaders)]
 			}
@@ -912,10 +913,11 @@ func sdkRows() []srow {
 }
 
 type recSpanExp struct {
-	mu       sync.Mutex
-	maxBatch int
-	deadline time.Duration
-	spans    int
+	mu          sync.Mutex
+	maxBatch    int
+	hasDeadline bool
+	deadline    time.Duration
+	spans       int
 }
 
 func (e *recSpanExp) ExportSpans(ctx context.Context, ss []sdktrace.ReadOnlySpan) error {
@@ -926,19 +928,20 @@ func (e *recSpanExp) ExportSpans(ctx context.Context, ss []sdktrace.ReadOnlySpan
 	}
 	e.spans += len(ss)
 	if dl, ok := ctx.Deadline(); ok {
-		e.deadline = time.Until(dl)
+		e.deadline, e.hasDeadline = time.Until(dl), true // under load the remaining time may already be negative
 	} else {
-		e.deadline = -1
+		e.hasDeadline = false
 	}
 	return nil
 }
 func (e *recSpanExp) Shutdown(context.Context) error { return nil }
 
 type recLogExp struct {
-	mu       sync.Mutex
-	maxBatch int
-	deadline time.Duration
-	records  int
+	mu          sync.Mutex
+	maxBatch    int
+	hasDeadline bool
+	deadline    time.Duration
+	records     int
 }
 
 func (e *recLogExp) Export(ctx context.Context, rs []sdklog.Record) error {
@@ -949,9 +952,9 @@ func (e *recLogExp) Export(ctx context.Context, rs []sdklog.Record) error {
 	}
 	e.records += len(rs)
 	if dl, ok := ctx.Deadline(); ok {
-		e.deadline = time.Until(dl)
+		e.deadline, e.hasDeadline = time.Until(dl), true // under load the remaining time may already be negative
 	} else {
-		e.deadline = -1
+		e.hasDeadline = false
 	}
 	return nil
 }
@@ -1089,7 +1092,7 @@ func runSDKRow(k *vf.Case, r srow) {
 		if cfg.MaxExportBatchSize > 0 && e.maxBatch > cfg.MaxExportBatchSize {
 			fail("batch-exceeds-effective-size", r.key, fmt.Sprintf("%d > %d", e.maxBatch, cfg.MaxExportBatchSize))
 		}
-		if cfg.ExportTimeout > 0 && e.spans > 0 && (e.deadline < 0 || e.deadline > cfg.ExportTimeout) {
+		if cfg.ExportTimeout > 0 && e.spans > 0 && (!e.hasDeadline || e.deadline > cfg.ExportTimeout) {
 			fail("export-deadline-differs", r.key, fmt.Sprintf("exporter saw %v, effective export timeout %v", e.deadline, cfg.ExportTimeout))
 		}
 		e.mu.Unlock()
@@ -1197,7 +1200,7 @@ func runSDKRow(k *vf.Case, r srow) {
 			if r.option {
 				want = 33 * time.Millisecond
 			}
-			if e.records > 0 && (e.deadline < 0 || e.deadline > want) && !(r.env != "" && !r.envValid && !r.option) {
+			if e.records > 0 && (!e.hasDeadline || e.deadline > want) && !(r.env != "" && !r.envValid && !r.option) {
 				fail("export-deadline-differs", r.key, fmt.Sprintf("exporter saw %v, expected export timeout %v", e.deadline, want))
 			}
 		}
